@@ -327,7 +327,7 @@ def mutate(tree: ast.expr, rng: Any, names: list[str]) -> tuple[str, ast.expr] |
     elif isinstance(n, ast.Subscript):
         opts += ["slice-part"] * 3
     elif isinstance(n, ast.Call):
-        opts += ["arg", "arg-kind", "arg-kind", "keyword", "keyword", "arity", "arity", "pos-to-kw"]
+        opts += ["arg", "arg-kind", "arg-kind", "star-kind", "star-kind", "keyword", "keyword", "arity", "arity", "pos-to-kw"]
     elif isinstance(n, ast.BinOp):
         opts += ["operator"] * 3 + ["swap"]
     elif isinstance(n, ast.BoolOp):
@@ -401,6 +401,23 @@ def mutate(tree: ast.expr, rng: Any, names: list[str]) -> tuple[str, ast.expr] |
             elif n.keywords:
                 kw = rng.choice(n.keywords)
                 kw.arg = None if kw.arg is not None else "k"
+            else:
+                return None
+        elif k == "star-kind":
+            # `*x` <-> `**x`: same expression, same (absent) keyword name, only the argument kind differs
+            stars = [i for i, a in enumerate(n.args) if isinstance(a, ast.Starred)]
+            dstars = [i for i, kw in enumerate(n.keywords) if kw.arg is None]
+            if stars and (not dstars or rng.random() < 0.5):
+                # only the LAST positional may become `**`: mypy keeps arguments in source order, and the order of the others must not change
+                if stars[-1] != len(n.args) - 1:
+                    return None
+                a = n.args.pop()
+                n.keywords.insert(0, ast.keyword(arg=None, value=a.value))
+            elif dstars:
+                if dstars[0] != 0:
+                    return None
+                kw = n.keywords.pop(0)
+                n.args.append(ast.Starred(value=kw.value, ctx=ast.Load()))
             else:
                 return None
         elif k == "keyword":
@@ -561,6 +578,12 @@ CORPUS: list[tuple[str, str, str]] = [
     ("call-trailing-comma", "fa(va, vb)", "fa(va, vb,)"),
     ("kw-order", "fa(k=va, j=vb)", "fa(j=vb, k=va)"),
     ("star-position", "fa(*vl, va)", "fa(va, *vl)"),
+    ("star-vs-dstar", "fa(*vd)", "fa(**vd)"),
+    ("star-vs-dstar-last", "fa(va, *vd)", "fa(va, **vd)"),
+    ("kw-vs-dstar", "fa(k=vd)", "fa(**vd)"),
+    ("pos-vs-star", "fa(vl)", "fa(*vl)"),
+    ("pos-vs-dstar", "fa(vd)", "fa(**vd)"),
+    ("method-star-vs-dstar", "vk.me(*vd).at", "vk.me(**vd).at"),
     ("lambda-star-position", "lambda: fa(*vl, va)", "lambda: fa(va, *vl)"),
     ("lambda-dict-unpack", "lambda: {**vd, **ve}", "lambda: {vd: ve}"),
     ("lambda-same", "lambda q: q + 1", "lambda q: q + 1"),
